@@ -82,8 +82,28 @@ def evaluate(sid, tier="quick"):
     return caught, silent
 
 
+def table():
+    """markdown table for DESIGN §9.6"""
+    rows = ["| seeded | breaks | change (abridged) | needs | quick checks that report it |", "|---|---|---|---|---|"]
+    for sid in sorted(os.listdir(os.path.join(ROOT, "seeded"))):
+        mp = os.path.join(ROOT, "seeded", sid, "meta.json")
+        if not os.path.exists(mp):
+            continue
+        m = json.load(open(mp))
+        ev = m.get("evaluation", {})
+        q = ev.get("quick", {}).get("caught_by", [])
+        t = ev.get("thorough", {}).get("caught_by", [])
+        caught = ", ".join(q) if q else ("none at quick; thorough: " + ", ".join(t) if t else "NONE")
+        clean = lambda x: " ".join(str(x).replace("|", "/").split())[:150]
+        prop = m.get("breaks") or sid[:3]
+        rows.append(f"| {sid} | {prop} | {clean(m.get('summary', ''))} | {clean(m.get('needs', ''))[:140]} | **{caught}** |")
+    return "\n".join(rows)
+
+
 if __name__ == "__main__":
-    if sys.argv[1] == "confirm":
+    if sys.argv[1] == "table":
+        print(table())
+    elif sys.argv[1] == "confirm":
         print(json.dumps(confirm(sys.argv[2]), indent=1))
     elif sys.argv[1] == "eval":
         c, s = evaluate(sys.argv[2], sys.argv[3] if len(sys.argv) > 3 else "quick")
